@@ -39,6 +39,7 @@ def analyse(run):
     if bad:
         raise AnalysisError("receiver table stale: %s" % bad)
     esc = Escape(run.ix, run.lat, httpx.RECEIVERS, httpx.SEEDS, trusted=httpx.TRUSTED)
+    esc.ba_seeds = set(httpx.BA_SEEDS)
     res = esc.analyse(entries(run))
     return esc, res
 
@@ -212,6 +213,7 @@ MUTANTS = [
     Mutant("narrow-parsemessage-handler", HT, "Parsent.parseMessage", "except (HTTPException, ValueError) as ex:  # malformed message bytes", "except BadStatusLine as ex:", {"C16.R1"}, canary=True),
     Mutant("environ-int-unguarded", HS, "Server.buildEnviron", "environ['CONTENT_LENGTH'] = str(requestant.length)", "environ['CONTENT_LENGTH'] = int(requestant.headers['content-length'])", {"C16.R1"}, canary=True),
     Mutant("reintroduce-valueerror-escapes", HT, "Parsent.parseMessage", "except (HTTPException, ValueError) as ex:  # malformed message bytes", "except HTTPException as ex:", {"C16.R1"}),
+    Mutant("reintroduce-bytearray-key", HT, "parseChunk", "parms[bytes(name.strip())] = bytes(value.strip()) or None", "parms[name.strip()] = value.strip() or None", {"C16.R1"}),
     Mutant("reintroduce-100-continue", HC, "Respondent.parseHead", "            lineParser.close()  # close generator\n            lineParser = None\n", "            lineParser.close()  # close generator\n", {"C16.R1"}),
     Mutant("reintroduce-bare-iter-nocopy", HS, "BareServer.serviceStewards", "for ca, steward in list(self.stewards.items()):", "for ca, steward in self.stewards.items():", {"C16.R2"}),
     Mutant("reintroduce-bare-respond-errored", HS, "BareServer.serviceStewards", "                    if steward.requestant.errored:  # malformed request so give up\n                        self.closeConnection(ca)\n                        continue\n", "", {"C16.R3"}),
